@@ -38,8 +38,8 @@ def _run(ops):
     from deep.api.tracepoint.tracepoint_config import MetricDefinition
     w = World()
     w.tps.set_task_handler(InlineTasks())
-    d = Deep.__new__(Deep)
-    d.config = w.config
+    d = Deep(w.config)                       # the real constructor (nothing is started); it installs its own task handler:
+    w.tps.set_task_handler(InlineTasks())    # updates are applied inline for this sequential property
     handles = []          # (handle, tag, line, alive)
     service = []
     n_reg = 0
@@ -55,6 +55,8 @@ def _run(ops):
             if arg == 3:
                 args = {"snapshot": "no_collect"}   # a registration without any action
                 tag = None
+            if arg == 4:
+                tag = "dup"                         # called again with exactly the arguments of an earlier call: a NEW registration
             h = d.register_tracepoint("f.py", line, args, [tag] if tag else [], metrics)
             handles.append([h, tag, line, True, arg == 1])
         elif op == 2:
@@ -99,7 +101,9 @@ def _run(ops):
 
 def _decode(c):
     """one op code per step: 0 reg L7, 1 reg L8, 2..4 unregister handle 0..2, 5..7 service update to set 0..2, 8 reg L7 with a metric,
-    9 reg method f (same file), 10 reg L7 without any action."""
+    9 reg method f (same file), 10 reg L7 without any action, 11 reg L7 with the same arguments every time."""
+    if c == 11:
+        return (0, 4)
     if c == 9:
         return (0, 2)
     if c == 10:
@@ -120,7 +124,7 @@ def history3(c1: int, c2: int, c3: int) -> str:
     Every history of three operations over {register on line 7 (with/without metric), register on line 8, unregister
     handle j (again allowed), service update}: installed = service set + registered - unregistered (by handle), after
     every operation, and the same set acts when the lines are reached.
-    PRE: 0 <= c1 <= 10 and 0 <= c2 <= 10 and 0 <= c3 <= 10
+    PRE: 0 <= c1 <= 11 and 0 <= c2 <= 11 and 0 <= c3 <= 11
     POST: _ == ""
     """
     world.begin_path()
@@ -131,7 +135,7 @@ def history3(c1: int, c2: int, c3: int) -> str:
 def history4(c1: int, c2: int, c3: int, c4: int) -> str:
     """
     Histories of four operations.
-    PRE: 0 <= c1 <= 10 and 0 <= c2 <= 10 and 0 <= c3 <= 10 and 0 <= c4 <= 10
+    PRE: 0 <= c1 <= 11 and 0 <= c2 <= 11 and 0 <= c3 <= 11 and 0 <= c4 <= 11
     POST: _ == ""
     """
     world.begin_path()
@@ -190,12 +194,12 @@ def _mut_remove_all_at_location():
 MUTANTS = {"remove_by_location": _mut_remove_by_location, "remove_all_at_location": _mut_remove_all_at_location}
 
 CONDITIONS = [
-    dict(fn="history3", cubes=["c1 == %d and c2 %s" % (a, b) for a in range(11) for b in ("<= 4", ">= 5")],
+    dict(fn="history3", cubes=["c1 == %d and c2 %s" % (a, b) for a in range(12) for b in ("<= 4", ">= 5")],
          twins=["reach", "mutant:remove_by_location@c1 == 0 and c2 <= 4", "mutant:remove_all_at_location@c1 == 0 and c2 <= 4"],
-         bounds="all 11^3 histories of 3 operations (register L7 / L8 / L7+metric / method f in the same file / L7 without actions, unregister handle 0..2, service update to one of 3 sets)"),
-    dict(fn="history4", cubes={"quick": ["c1 == %d and c2 == %d and c3 %s" % (a, b, c) for (a, b) in ((0, 0), (0, 1), (9, 0), (10, 10)) for c in ("<= 3", "in (4,5,6,7)", ">= 8")],
-                               "thorough": ["c1 == %d and c2 == %d" % (a, b) for a in range(11) for b in range(11)]},
-         twins=["reach"], bounds="histories of 4 operations: quick = those starting (L7,L7), (L7,L8), (method,L7), (no-action,no-action); thorough = all 11^4"),
+         bounds="all 12^3 histories of 3 operations (register L7 / L8 / L7+metric / method f in the same file / L7 without actions / L7 with identical arguments each time, unregister handle 0..2, service update to one of 3 sets)"),
+    dict(fn="history4", cubes={"quick": ["c1 == %d and c2 == %d and c3 %s" % (a, b, c) for (a, b) in ((0, 0), (0, 1), (9, 0), (10, 10), (11, 11), (11, 2)) for c in ("<= 3", "in (4,5,6,7)", ">= 8")],
+                               "thorough": ["c1 == %d and c2 == %d" % (a, b) for a in range(12) for b in range(12)]},
+         twins=["reach"], bounds="histories of 4 operations: quick = those starting (L7,L7), (L7,L8), (method,L7), (no-action,no-action), (identical,identical), (identical,unregister); thorough = all 12^4"),
     dict(fn="history5", cubes={"quick": ["c2 == 0 and c3 == 2 and c4 == 0", "c2 == 0 and c3 == 2 and c4 == 1", "c2 == 1 and c3 == 3 and c4 == 0"], "thorough": ["c2 == %d and c3 == %d" % (a, b) for a in range(2) for b in range(8)]},
          twins=[], bounds="histories of 5 operations starting register L7, register L7|L8 (quick: register, register, unregister one, register, any; thorough: all)"),
 ]
